@@ -81,8 +81,13 @@ def check_verify(chk, prog, env, model):
     viol = 0
     unit = 'libjwt/jwt-checker.c'
     prog.func(unit, 'jwt_checker_verify')
-    for provider in H.providers(prog):
-        for stale in (False, True):
+    states, writers, log = H.error_state_closure(prog, env, model, 'checker', [(0, 'empty'), (1, 'nonempty')], skip=('jwt_checker_verify',))
+    chk.coverage['checker_error_states'] = {'writers': writers, 'closure': log}
+    todo = [(p_, s_) for s_ in states for p_ in H.providers(prog)]
+    seen_states = set(states)
+    while todo:
+        provider, stale = todo.pop(0)
+        if True:
             for cb in (False, True):
                 for keymode in ('none', 'sym'):
                     it = Interp(prog, unit, model=model, rule=FlagRule(), budget=600000,
@@ -100,6 +105,17 @@ def check_verify(chk, prog, env, model):
                         fl = flag_of(s, o)
                         ms = msg_state(it, s, o, 'error_msg')
                         ok = (rc == 0 and fl == 0 and ms == 'empty') or (rc not in (0, '?') and fl == 1 and ms == 'nonempty')
+                        # a state this exit leaves the object in is an input state of the next call
+                        for f_ in ((0, 1) if fl is None else (1 if fl else 0,)):
+                            for m_ in (('empty', 'nonempty') if ms == 'unknown' else (ms,)):
+                                if (f_, m_) not in seen_states:
+                                    seen_states.add((f_, m_))
+                                    more, _, log2 = H.error_state_closure(prog, env, model, 'checker', [(f_, m_)], skip=('jwt_checker_verify',))
+                                    chk.coverage['checker_error_states']['closure'] += log2
+                                    for ns in more:
+                                        seen_states.add(ns)
+                                        todo += [(p_, ns) for p_ in H.providers(prog) if (p_, ns) not in todo and ns not in states]
+                                    states = sorted(set(states) | set(more))
                         if not ok:
                             viol += 1
                             (f, l), how = exit_site(s)
@@ -109,9 +125,10 @@ def check_verify(chk, prog, env, model):
                                             % (rc, fl, ms, how, f, l, provider, stale, cb, keymode, fail_chain(s)), line=l))
                     if len(chk.samples) < 3 and res:
                         s, rv = res[-1]
-                        chk.sample({'entry': 'jwt_checker_verify', 'provider': provider, 'stale': stale, 'callback': cb,
+                        chk.sample({'entry': 'jwt_checker_verify', 'provider': provider, 'stale': list(stale), 'callback': cb,
                                     'key': keymode, 'paths': len(res), 'one_path': path_desc(s, 8),
                                     'ret': str(ret_class(it, s, rv)), 'flag': flag_of(s, o)})
+    chk.coverage['checker_error_states']['reachable'] = sorted(seen_states)
     chk.rule('C14.verify-exit', 'every exit of jwt_checker_verify: ret==0 <=> flag clear & message empty; ret!=0 <=> flag set & message non-empty',
              n_paths, viol, floor=40)
 
@@ -121,8 +138,13 @@ def check_generate(chk, prog, env, model):
     viol = 0
     unit = 'libjwt/jwt-builder.c'
     prog.func(unit, 'jwt_builder_generate')
-    for provider in H.providers(prog):
-        for stale in (False, True):
+    states, writers, log = H.error_state_closure(prog, env, model, 'builder', [(0, 'empty'), (1, 'nonempty')], skip=('jwt_builder_generate',))
+    chk.coverage['builder_error_states'] = {'writers': writers, 'closure': log}
+    todo = [(p_, s_) for s_ in states for p_ in H.providers(prog)]
+    seen_states = set(states)
+    while todo:
+        provider, stale = todo.pop(0)
+        if True:
             for cb in (False, True):
                 for keymode in ('none', 'sym'):
                     it = Interp(prog, unit, model=model, rule=FlagRule(), budget=600000, hooks=H.std_hooks(env))
@@ -140,6 +162,16 @@ def check_generate(chk, prog, env, model):
                         fl = flag_of(s, o)
                         ms = msg_state(it, s, o, 'error_msg')
                         ok = (rc == 0 and fl == 1 and ms == 'nonempty') or (rc == 'ptr' and fl == 0)
+                        for f_ in ((0, 1) if fl is None else (1 if fl else 0,)):
+                            for m_ in (('empty', 'nonempty') if ms == 'unknown' else (ms,)):
+                                if (f_, m_) not in seen_states:
+                                    seen_states.add((f_, m_))
+                                    more, _, log2 = H.error_state_closure(prog, env, model, 'builder', [(f_, m_)], skip=('jwt_builder_generate',))
+                                    chk.coverage['builder_error_states']['closure'] += log2
+                                    for ns in more:
+                                        seen_states.add(ns)
+                                        todo += [(p_, ns) for p_ in H.providers(prog) if (p_, ns) not in todo and ns not in states]
+                                    states = sorted(set(states) | set(more))
                         if not ok:
                             viol += 1
                             (f, l), how = exit_site(s)
@@ -148,6 +180,7 @@ def check_generate(chk, prog, env, model):
                                             'returns %s with flag=%s message=%s (%s %s:%s; provider=%s stale_error=%s callback=%s key=%s; returned through %s)'
                                             % ('NULL' if rc == 0 else rc, fl, ms, how, f, l, provider, stale, cb, keymode,
                                                fail_chain(s)), line=l))
+    chk.coverage['builder_error_states']['reachable'] = sorted(seen_states)
     chk.rule('C14.generate-exit', 'every exit of jwt_builder_generate: NULL <=> flag set & message non-empty; token => flag clear',
              n_paths, viol, floor=40)
 
